@@ -1111,6 +1111,10 @@ fn main() {
         datas.push(t.into_bytes());
     }
     datas.extend(covering_data());
+    // single writes / reads beyond the page-sized buffers std and the crate work with (4096, 8192): in every tier
+    for n in [4097usize, 8193] {
+        datas.push(random_bytes(&mut rng, n));
+    }
     if cfg.thorough {
         for _ in 0..40 {
             let n = 401 + rng.below(6000) as usize;
